@@ -5,14 +5,6 @@ From AV Require Import Base.ListX Model.C05_Enc Proofs.C05_Bits.
 Import ListNotations.
 Ltac Zify.zify_post_hook ::= Z.div_mod_to_equations.
 
-Definition bounded (w : nat) (l : list N) : Prop := Forall (fun v => (v < 2^N.of_nat w)%N) l.
-
-Definition wf_run (w : nat) (r : run) : Prop :=
-  match r with
-  | Rle c v => (0 < c)%nat /\ (N.of_nat c < 2147483648)%N /\ (v < 2^N.of_nat w)%N
-  | Packed g vs => (0 < g)%nat /\ (N.of_nat g < 268435456)%N /\ length vs = (8 * g)%nat /\ bounded w vs
-  end.
-
 (* ------------------------------------------------------------------ decoder *)
 Lemma ser_nonempty w r : wf_run w r -> exists h rest, forall tl, vlq_dec (ser w r ++ tl) 0 0 = Some (h, rest ++ tl) /\ h <> 0%N.
 Proof.
